@@ -90,6 +90,16 @@ def gen_cases(rng, tier):
         ops.append(["q_alloc_cmp", f"{rat(x)}@{u}", ratios, v,
                     rng.choice(["ROUND_HALF_EVEN", "ROUND_FLOOR", "ROUND_CEILING"])])
     cases.append({"ops": ops, "fork": True, "tags": ["allocated-portions"]})
+    # the documentation tables, row by row, against the computed conversions;
+    # and units ordered by their reference scales
+    ops = [["load_predefined"], ["doc_rows"]]
+    for c, us in by_cls.items():
+        if c == "Temperature":
+            continue
+        for _ in range(6):
+            (a, _), (b, _) = rng.choice(us), rng.choice(us)
+            ops.append(["ucmp", rng.choice(["lt", "le", "gt", "ge"]), a, b])
+    cases.append({"ops": ops, "fork": True, "tags": ["doc-rows", "unit-order"]})
     # SI prefixes by the name of their module-level constant
     cases.append({"ops": [["prefix", n] for n in PREFIX_EXP], "fork": False, "tags": ["prefixes"]})
     return cases
@@ -171,6 +181,16 @@ def oracle(case, impl):
         elif o[0] == "q_alloc_cmp":
             if out != "ok true":
                 fails.append({"site": "cat:allocated-portion", "msg": f"{o} -> {out}"})
+        elif o[0] == "doc_rows":
+            if not out.startswith("ok rows=") or not out.endswith(" bad=-"):
+                fails.append({"site": "cat:doc-row", "msg": f"documentation rows differ from the computed "
+                              f"equivalents: {out}"})
+        elif o[0] == "ucmp":
+            su, sv = scale[o[2]], scale[o[3]]
+            rel = {"lt": su < sv, "le": su <= sv, "gt": su > sv, "ge": su >= sv}[o[1]]
+            exp = "ok " + ("true" if rel else "false")
+            if out != exp:
+                fails.append({"site": "cat:unit-order", "msg": f"{o} -> {out}, SI scales {su} vs {sv}"})
         elif o[0] == "prefix":
             exp = f"ok {o[1].capitalize()} {PREFIX_ABBR[o[1]]} {rat(Fraction(10) ** PREFIX_EXP[o[1]])}"
             if out != exp:
